@@ -35,8 +35,7 @@ def build(repo):
                asserts={'after:qred': [('lemma (right after the step has been taken): the quadratic model at the new step is not above its value at the zero step:: ' + QV + ' <= 0', 'C12')],
                         'after:delsq': [('lemma (after a variable has been fixed at its bound): the quadratic model at the current step is not above its value at the zero step:: ' + QV + ' <= 0', 'C12')],
                         'break@for:ii#0': [('(C12) wherever the conjugate-gradient loop is left, the step does not increase the quadratic model: Q(d) <= Q(0) (the return statements follow the loop directly; '
-                                            'leaving by exhaustion is covered by invariant (Q)):: ' + QV + ' <= 0', 'C12')],
-                        'before:alt_trust_step#1': [('(C12) the step handed to the boundary iteration does not increase the quadratic model:: ' + QV + ' <= 0', 'C12')]},
+                                            'leaving by exhaustion is covered by invariant (Q)):: ' + QV + ' <= 0', 'C12')]},
                ensures=[])
     D.verify_list = ['trsbox']
     return D
